@@ -18,8 +18,9 @@
 //     slack) after a scan that saw it unjustified; never when GC is disabled;
 //   - the release names the handle and sequence number of the allocation as last delivered;
 //   - a ReleaseIPs call names all addresses of a handle that the controller was shown, or none;
-//   - tunnel addresses and host affinities only when the node is absent from what it was shown and
-//     nothing valid (by the shown pod cache) or of unknown source remains on the node;
+//   - tunnel addresses only when the node is absent from what the controller was shown; host
+//     affinities only then and when nothing valid (by the shown pod cache) or of unknown source
+//     remains on the node;
 //   - an empty block's affinity only if the blocks delivered so far give that node another block,
 //     the delivered block is empty, and a sync at least a grace period earlier already saw it empty;
 //   - after every delivery and sync the controller's bookkeeping maps equal the delivered blocks.
@@ -500,7 +501,13 @@ func run(c *harness.Case) {
 	if len(head) > 16 {
 		head = head[:16]
 	}
-	c.Sample(map[string]any{"grace_s": graceS(w), "cooldown_s": w.cooldown, "dual_stack": w.dual, "n_ops": len(w.ops), "released": w.released, "ops_head": head})
+	var errs []string
+	for _, o := range w.ops {
+		if strings.Contains(o, "error:") && len(errs) < 3 {
+			errs = append(errs, o)
+		}
+	}
+	c.Sample(map[string]any{"release_errors": errs, "grace_s": graceS(w), "cooldown_s": w.cooldown, "dual_stack": w.dual, "n_ops": len(w.ops), "released": w.released, "ops_head": head})
 }
 
 func main() {
